@@ -378,6 +378,11 @@ def run(ck):
         ok = ok and any(isinstance(s, ast.Assign) and u(s.targets[0]) == 'new.' + attr and isinstance(s.value, ast.Call)
                         and (call_name(s.value) in COPIERS or call_attr(s.value) == 'copy') for s in cp.body)
     ck.ob('ALIAS-copy', mod.loc(cp), ok, 'copy() is subgraph(all nodes) with copied citations and log entries', key='ALIAS-copy|copy')
+    # log_entries is level -> message -> list of maps: the editing operations append to the inner lists in place, so only a deep copy separates the copy from its source
+    for fn_, recv_ in ((cp, 'new'), (tm, 'mol')):
+        deep = [s for s in walk_local(fn_) if isinstance(s, ast.Assign) and u(s.targets[0]) == recv_ + '.log_entries']
+        ck.ob('ALIAS-copy', mod.loc(fn_), len(deep) == 1 and isinstance(deep[0].value, ast.Call) and call_name(deep[0].value) in ('copy.deepcopy', 'deepcopy'),
+              '{}: the nested log-entry table is deep-copied (`{}`)'.format(fn_.name, u(deep[0].value)[:60] if deep else 'no store'), key='ALIAS-copy|log-entries-deep|' + fn_.name)
     tmc = [s for s in walk_local(tm) if isinstance(s, ast.Assign) and u(s.targets[0]) == 'mol.citations']
     ck.ob('ALIAS-copy', mod.loc(tm), len(tmc) == 1 and isinstance(tmc[0].value, ast.Call) and call_attr(tmc[0].value) == 'copy',
           'Block.to_molecule gives the molecule its own citation set', key='ALIAS-copy|to_molecule-citations')
